@@ -73,6 +73,9 @@ struct ItemReq {
     /// textual replacements applied to the *type text of parameters* (exact token text -> text), logged as D8
     #[serde(default)]
     rename_fn: Option<String>,
+    /// D11: path -> replacement text (resolution of `pub use` / type aliases of the crate root)
+    #[serde(default)]
+    paths: BTreeMap<String, String>,
 }
 
 #[derive(Serialize, Default)]
@@ -531,11 +534,34 @@ fn desugar_pat(p: &syn::Pat, extra: &mut Vec<String>) -> Result<String, String> 
     }
 }
 
+struct PathVisitor<'a> {
+    paths: &'a BTreeMap<String, String>,
+    found: Vec<(proc_macro2::Span, proc_macro2::Span, String, String)>,
+}
+impl<'a, 'ast> Visit<'ast> for PathVisitor<'a> {
+    fn visit_path(&mut self, p: &'ast syn::Path) {
+        // match the path without generic arguments of the last segment
+        let mut key = String::new();
+        for (i, seg) in p.segments.iter().enumerate() {
+            if i > 0 { key.push_str("::"); }
+            key.push_str(&seg.ident.to_string());
+        }
+        if let Some(to) = self.paths.get(&key) {
+            let first = p.segments.first().unwrap().ident.span();
+            let last = p.segments.last().unwrap().ident.span();
+            self.found.push((first, last, key, to.clone()));
+            return;
+        }
+        syn::visit::visit_path(self, p);
+    }
+}
+
 #[derive(Default)]
 struct BodyVisitor<'ast> {
     closures: Vec<&'ast syn::ExprClosure>,
     loops: Vec<&'ast syn::Expr>,
     sums: Vec<&'ast syn::ExprMethodCall>,
+    ctor_args: Vec<&'ast syn::ExprPath>,
 }
 
 impl<'ast> Visit<'ast> for BodyVisitor<'ast> {
@@ -553,6 +579,16 @@ impl<'ast> Visit<'ast> for BodyVisitor<'ast> {
     fn visit_expr_method_call(&mut self, m: &'ast syn::ExprMethodCall) {
         if m.method == "sum" {
             self.sums.push(m);
+        }
+        if (m.method == "map" || m.method == "map_err") && m.args.len() == 1 {
+            if let syn::Expr::Path(p) = &m.args[0] {
+                if p.path.segments.len() == 1 {
+                    let id = p.path.segments[0].ident.to_string();
+                    if id == "Self" || id.chars().next().map(|c| c.is_uppercase()).unwrap_or(false) {
+                        self.ctor_args.push(p);
+                    }
+                }
+            }
         }
         syn::visit::visit_expr_method_call(self, m);
     }
@@ -582,6 +618,18 @@ fn process_fn(
             ctx.subst_idents(b, vis_start, item_end, None);
         }
         ctx.mono_generics(&sig.generics);
+    }
+
+    // D11 crate-root alias resolution
+    if !req.paths.is_empty() {
+        let mut pv = PathVisitor { paths: &req.paths, found: Vec::new() };
+        pv.visit_signature(sig);
+        if let Some(b) = block {
+            pv.visit_block(b);
+        }
+        for (a, b, from, to) in pv.found {
+            ctx.edits.replace(src.off(a.start()), src.off(b.end()), to.clone(), "D11", format!("{} -> {} (crate-root alias resolved)", from, to));
+        }
     }
 
     // D1 name the return value
@@ -646,6 +694,12 @@ fn process_fn(
                     let re = src.end(&*m.receiver);
                     ctx.edits.insert(rs, format!("iter_sum::<{}, _>(", x), "D4", format!(".sum::<{}>() -> iter_sum", x));
                     ctx.edits.replace(re, src.end(*m), ")".to_string(), "D4", String::new());
+                }
+
+                // D12 tuple-struct constructor used as a function value: eta-expand
+                for p in &bv.ctor_args {
+                    let t = ctx.render(src.start(*p), src.end(*p));
+                    ctx.edits.replace(src.start(*p), src.end(*p), format!("|x__| -> (o__: {t}) ensures o__ == {t}(x__) {{ {t}(x__) }}", t = t), "D12", format!("constructor `{}` used as a function value eta-expanded to a closure", t));
                 }
 
                 // D3 + closure contracts
@@ -863,6 +917,13 @@ fn process_item(src: &Src, all: &[(String, &syn::Item)], req: &ItemReq) -> ItemO
                 Ok((s, e, src.start(f), src.end(f)))
             }
             Found::Struct(s) => {
+                if !req.paths.is_empty() {
+                    let mut pv = PathVisitor { paths: &req.paths, found: Vec::new() };
+                    pv.visit_item_struct(s);
+                    for (a, b, from, to) in pv.found {
+                        ctx.edits.replace(src.off(a.start()), src.off(b.end()), to.clone(), "D11", format!("{} -> {} (crate-root alias resolved)", from, to));
+                    }
+                }
                 strip_attrs(&mut ctx, &s.attrs);
                 for f in s.fields.iter() {
                     strip_attrs(&mut ctx, &f.attrs);
